@@ -158,7 +158,7 @@ let run path =
       | ["term"; c] -> OTerminate (conn c)
       | ["close"] -> OClose
       | _ -> failwith ("bad case " ^ S.concat " " args) in
-    (match op with OSetupEnd true -> kt_seen := true | _ -> ());
+    (match op with OSetupEnd true | OClose -> kt_seen := true | _ -> ());
     let (r, st') = step prev op in
     let mres = s_of_result r in
     let label = !hist ^ "/" ^ k in
